@@ -266,7 +266,10 @@ ArithI(op, a, b) ==    \* both ints; returns value, "err" record for checked err
     [] op = "*"  -> IF MulOvf(a, b) THEN OvfV ELSE IntV(a * b)
     [] op = "/"  -> IF b = 0 THEN [k |-> "err"] ELSE IntV(TDiv(a, b))
     [] op = "%"  -> IF b = 0 THEN [k |-> "err"] ELSE IntV(TMod(a, b))
-    [] op = "**" -> IF b < 0 \/ b > 12 THEN OvfV ELSE LET r == IPow(a, b) IN IF Big(r) THEN OvfV ELSE IntV(r)
+    [] op = "**" -> IF b > 12 THEN OvfV
+                    ELSE IF b < 0 THEN       \* int64(math.Pow(a, b)): the reciprocal truncated toward zero
+                         (IF a = 0 THEN OvfV ELSE IF a = 1 THEN IntV(1) ELSE IF a = -1 THEN IntV(IF b % 2 = 0 THEN 1 ELSE -1) ELSE IntV(0))
+                    ELSE LET r == IPow(a, b) IN IF Big(r) THEN OvfV ELSE IntV(r)
     [] op = "<<" -> IF b < 0 THEN [k |-> "err"] ELSE IF b > 20 \/ Big(a) THEN OvfV
                     ELSE IF MulOvf(a, Pow2(b)) THEN OvfV ELSE IntV(a * Pow2(b))
     [] op = ">>" -> IF b < 0 THEN [k |-> "err"] ELSE IF b > 20 THEN OvfV
@@ -288,7 +291,10 @@ ArithF(op, a, b) ==
     [] op = "*"  -> RMul(a, b)
     [] op = "/"  -> IF b.n = 0 THEN OvfV ELSE RDiv(a, b)      \* float division by zero gives Inf/NaN: outside the model
     [] op = "%"  -> IF b.n = 0 THEN OvfV ELSE RMod(a, b)
-    [] op = "**" -> IF b.d # 1 \/ b.n < 0 \/ b.n > 8 THEN OvfV ELSE RPow(a, b.n)
+    [] op = "**" -> IF b.d # 1 \/ b.n < -4 \/ b.n > 8 THEN OvfV
+                    ELSE IF b.n >= 0 THEN RPow(a, b.n)
+                    ELSE IF a.n = 0 THEN OvfV                                  \* 0 ** -n = +Inf
+                    ELSE LET r == RPow(a, -b.n) IN IF r.k = "ovf" THEN OvfV ELSE RDiv(RatV(1, 1), r)
     [] OTHER     -> [k |-> "fault"]
 
 CmpOK(op, lt, eq) == CASE op = "<" -> lt [] op = "<=" -> lt \/ eq [] op = ">" -> ~lt /\ ~eq
@@ -360,11 +366,16 @@ Eval(P, e, st) ==
            ELSE R(Null, [s2 EXCEPT !.ovf = TRUE])
     [] e.n \in {"assign", "addassign", "inc", "dec"} ->
          LET ls == Labels(P, e.idx, st) IN
-         IF Dead(ls.st) THEN R(Null, ls.st) ELSE
+         IF Dead(ls.st) THEN R(Null, ls.st)
+         \* ++ on a histogram is accepted by the compiler and faults in the VM (datum is not an Int): for the
+         \* semantics of a LINE that is a runtime error like any other - the rest of the line is skipped
+         ELSE IF DeclOf(P, e.m).kind = "histogram" THEN R(Null, Fail(ls.st)) ELSE
          LET s1 == Touch(P, ls.st, e.m, ls.v)       \* the datum exists before the right-hand side runs
              ty == DeclOf(P, e.m).ty IN
-         IF e.n = "inc" THEN R(Null, SetV(s1, e.m, ls.v, IF Big(GetV(s1, e.m, ls.v).v + 1) THEN OvfV ELSE IntV(GetV(s1, e.m, ls.v).v + 1)))
-         ELSE IF e.n = "dec" THEN R(Null, SetV(s1, e.m, ls.v, IntV(GetV(s1, e.m, ls.v).v - 1)))
+         \* ++ / -- are expressions: their value is the new value of the datum
+         IF e.n = "inc" THEN LET nv == IF Big(GetV(s1, e.m, ls.v).v + 1) THEN OvfV ELSE IntV(GetV(s1, e.m, ls.v).v + 1) IN
+                             IF nv.k = "ovf" THEN R(Null, [s1 EXCEPT !.ovf = TRUE]) ELSE R(nv, SetV(s1, e.m, ls.v, nv))
+         ELSE IF e.n = "dec" THEN LET nv == IntV(GetV(s1, e.m, ls.v).v - 1) IN R(nv, SetV(s1, e.m, ls.v, nv))
          ELSE LET r == Eval(P, e.r, s1) IN
               IF Dead(r.st) THEN R(Null, r.st) ELSE
               LET s2 == Touch(P, r.st, e.m, ls.v)     \* (the right-hand side may have deleted it: not generated)
